@@ -45,7 +45,7 @@ LEVEL = "proof"
 THEOREMS = [
     "C15_wf_invariant", "C15_seq_in_log_order", "C15_last_seq_mono", "C15_no_abort", "C15_repoint_nearest",
     "C15_nearest_is_ancestor", "C15_repoint_cycle", "C15_current_kept", "C15_delete_exact", "C15_entries_provenance",
-    "C15_txn_files", "C15_mlog_ok", "C09_by_timestamp", "C09_delete_current", "C09_by_id",
+    "C15_repoint_all", "C15_txn_files", "C15_mlog_ok", "C09_by_timestamp", "C09_delete_current", "C09_by_id",
 ]
 REQ = ["DS.Model.MetaBase", "DS.Gen.GenRepoint", "DS.Model.Meta"]
 
